@@ -151,7 +151,7 @@ def gen_imports(rng, fs, tier):
         coords = {}
         s = rng.choice(SCALES)        # one scale per case (Mesh(cell=...) uses min(cell)*1e-3 across all axes)
         for a in range(nd):
-            if rng.random() < 0.7:
+            if not fs["exact"] or rng.random() < 0.7:      # scale regime: every axis, so one scale per case
                 if fs["exact"]:
                     c = F(rng.choice([1, 3, 5, 9]), 2 ** rng.randint(0, 5))
                     x0 = F(rng.randint(-512, 512), 16)
